@@ -342,6 +342,48 @@ pub fn dump_flags(h: &Handle, dups: &HashMap<usize, bool>) -> Value {
     }
 }
 
+/// the order in which RcDom's `Serialize` implementation visits the nodes below `h` (C20: each node once, in
+/// document order), recorded through a `Serializer` that only notes what it is asked to write
+pub fn ser_events(h: &Handle) -> Value {
+    use markup5ever::serialize::{AttrRef, Serialize, Serializer, TraversalScope};
+    use markup5ever_rcdom::SerializableHandle;
+    struct Rec(Vec<Value>);
+    impl Serializer for Rec {
+        fn start_elem<'a, I: Iterator<Item = AttrRef<'a>>>(&mut self, name: QualName, attrs: I) -> std::io::Result<()> {
+            let n = attrs.count();
+            self.0.push(json!({"k":"s","n":cps(&name.local),"a":n}));
+            Ok(())
+        }
+        fn end_elem(&mut self, name: QualName) -> std::io::Result<()> {
+            self.0.push(json!({"k":"e","n":cps(&name.local),"a":0}));
+            Ok(())
+        }
+        fn write_text(&mut self, text: &str) -> std::io::Result<()> {
+            self.0.push(json!({"k":"t","n":cps(text),"a":0}));
+            Ok(())
+        }
+        fn write_comment(&mut self, text: &str) -> std::io::Result<()> {
+            self.0.push(json!({"k":"c","n":cps(text),"a":0}));
+            Ok(())
+        }
+        fn write_doctype(&mut self, name: &str) -> std::io::Result<()> {
+            self.0.push(json!({"k":"d","n":cps(name),"a":0}));
+            Ok(())
+        }
+        fn write_processing_instruction(&mut self, target: &str, _data: &str) -> std::io::Result<()> {
+            self.0.push(json!({"k":"p","n":cps(target),"a":0}));
+            Ok(())
+        }
+    }
+    let mut rec = Rec(Vec::new());
+    let sh: SerializableHandle = h.clone().into();
+    match catch(move || { let r = sh.serialize(&mut rec, TraversalScope::ChildrenOnly(None)); (r.is_ok(), rec.0) }) {
+        Ok((true, v)) => Value::Array(v),
+        Ok((false, _)) => json!([{"k":"error","n":[],"a":0}]),
+        Err(_) => json!([{"k":"panic","n":[],"a":0}]),
+    }
+}
+
 /// every node's parent link names the node whose child list contains it (C20)
 pub fn parents_consistent(h: &Handle) -> bool {
     for c in h.children.borrow().iter() {
@@ -375,6 +417,7 @@ pub struct ParseOut {
     pub neof: usize,
     pub tree_flags: Value,
     pub istate: String,
+    pub ser: Value,
 }
 
 /// case: {"mode":"doc"|"frag","ctx":{"ns","local"},"scripting":bool,"srcdoc":bool,"drop_doctype":bool,
@@ -489,7 +532,8 @@ pub fn run_parse(case: &Value) -> ParseOut {
     let parents_ok = if want_tree && panic.is_none() { parents_consistent(&sink.inner.document) } else { true };
     let neof = events.iter().filter(|e| e["ev"] == "token" && e["tok"]["k"] == "eof").count();
     let tree_flags = if want_tree && panic.is_none() { dump_flags(&sink.inner.document, &sink.dups.borrow()) } else { json!({"k":"none"}) };
-    ParseOut { events, tree, quirks, parents_ok, panic, feeds, neof, tree_flags, istate }
+    let ser = if want_tree && panic.is_none() { ser_events(&sink.inner.document) } else { json!([]) };
+    ParseOut { events, tree, quirks, parents_ok, panic, feeds, neof, tree_flags, istate, ser }
 }
 
 /// Drive the tree builder directly with a token sequence (no tokenizer): the spec -> implementation
@@ -549,7 +593,7 @@ pub fn run_tokens(case: &Value) -> ParseOut {
         QuirksMode::NoQuirks => "no",
     };
     let neof = events.iter().filter(|e| e["ev"] == "token" && e["tok"]["k"] == "eof").count();
-    ParseOut { events, tree, quirks, parents_ok: true, panic, feeds: Vec::new(), neof, tree_flags, istate }
+    ParseOut { events, tree, quirks, parents_ok: true, panic, feeds: Vec::new(), neof, tree_flags, istate, ser: json!([]) }
 }
 
 /// Bytes through the driver's from_utf8() front end (Utf8LossyDecoder -> Parser): C10's tree clause.
@@ -578,9 +622,9 @@ pub fn run_parse_bytes(case: &Value) -> ParseOut {
                 QuirksMode::NoQuirks => "no",
             };
             let parents_ok = parents_consistent(&sink.inner.document);
-            ParseOut { events: Vec::new(), tree, quirks, parents_ok, panic: None, feeds: Vec::new(), neof: 1, tree_flags, istate: "none".into() }
+            ParseOut { events: Vec::new(), tree, quirks, parents_ok, panic: None, feeds: Vec::new(), neof: 1, tree_flags, istate: "none".into(), ser: json!([]) }
         },
         Err(m) => ParseOut { events: Vec::new(), tree: json!({"k":"none"}), quirks: "no", parents_ok: true, panic: Some(m), feeds: Vec::new(), neof: 0,
-                             tree_flags: json!({"k":"none"}), istate: "none".into() },
+                             tree_flags: json!({"k":"none"}), istate: "none".into(), ser: json!([]) },
     }
 }
